@@ -124,6 +124,8 @@ def values_for(m, thorough):
         out.append(Stream(bytes((i * 7) % 256 for i in range(n))))
     for n, burst in ((100, 7), (1000, 64), (m + 5, 1)):
         out.append(Stream(bytes((i * 11) % 256 for i in range(n)), burst=burst))     # short-reading raw streams
+    for n in (0, 50, m + 3):
+        out.append(Stream(bytes((i * 13) % 256 for i in range(n)), osfile=True))     # partly consumed buffered OS files
     if thorough and m == BIG:
         for n in (2 ** 22 - 1, 2 ** 22, 2 ** 22 + 1):
             out.append(Stream(b'\xab' * n))
